@@ -1,7 +1,6 @@
 import CacheVerif.Deep.Step
-import CacheVerif.Generated.DeepSimp
+import CacheVerif.Proofs.DeepSimpSet
 import CacheVerif.Model.CacheOf
-import CacheVerif.Proofs.DeepCache
 /-!
 # The hand-written model M2 (`Model.CacheOf`) is the meaning of the current text of `xsync_mapof.go`
 
@@ -14,12 +13,7 @@ namespace DeepCacheOf
 open Deep Model Spec
 variable {K V : Type} [DecidableEq K] [Inhabited V]
 
-/-- definitions of the hand-written model unfolded on the right-hand sides -/
-macro "m2" : tactic => `(tactic| skip)
-
-attribute [deep_simp] Model.CacheOf.step Model.CacheOf.set Model.CacheOf.get Model.CacheOf.expiration Model.CacheOf.expired Gen.expirationOf
-  Model.CacheOf.getOrSetFn Model.CacheOf.refreshFn Model.CacheOf.liveOld Model.CacheOf.computeFn
-  Model.CacheOf.getAndDelete
+set_option maxRecDepth 8192
 
 theorem deep_set (s : CSt K V) (k : K) (v : V) (d : Int) :
     deepStep twinMapOf s (.set k v d) = some (Model.CacheOf.step s (.set k v d)) := by
